@@ -916,9 +916,16 @@ def local_host_names(sl):
             start = mechanic.StartEngine(Cfg(hosts), None, False, True, False, False)
             start.hosts = hosts
             d.receiveMessage(start, s.rc_addr)
+        except exceptions.RallyError as e:
+            # the statement asks for a report instead of a hang: rejecting a loop-back-only name explicitly (inside the no_retry-guarded
+            # handler this becomes a BenchmarkFailure) would satisfy it as well as treating the name as this machine
+            core.note("rejected", repr(e))
+            core.trace("hosts", -1)
+            observe("only a name that does not denote a reachable address may be rejected", "localhost" in chosen)
+            return
         except Exception as e:  # noqa: BLE001
             core.note("raised", repr(e))
-            observe("target hosts given by name are accepted", False)
+            observe("target hosts given by name are accepted or explicitly rejected", False)
             return
     core.trace("hosts", len(chosen))
     core.note("hosts -> (ip, port)", list(zip(chosen, pairs)))
